@@ -194,7 +194,7 @@ def r3_forwarding(ctx):
             done.add(id(c))
             n_site += 1
             for pr in problems:
-                ctx.ob("R3", f, f"{f.short}: {target}(...) built from `{src}` forwards unconditionally", False, pr, f.loc(c))
+                ctx.ob("R3", f, f"{f.short}: {target}(...) built from an existing component forwards unconditionally", False, f"(source `{src}`) " + pr, f.loc(c))
             for a in sorted(set(tparams) & set(sparams)):
                 if a in NOT_CARRIED:
                     continue
@@ -202,9 +202,9 @@ def r3_forwarding(ctx):
                     continue  # MultiIndex keeps self.indexes and reads coerce from them (MultiIndexBackend.coerce_dtype)
                 v = given.get(a)
                 ok = v is True or (v is not None and isinstance(v, ast.Attribute) and v.attr.lstrip("_") == a)
-                ctx.ob("R3", f, f"{f.short}: {target}(...) built from `{src}` carries `{a}`", ok,
+                ctx.ob("R3", f, f"{f.short}: {target}(...) built from an existing component carries `{a}`", ok,
                        "forwarded" if ok else
-                       (f"`{a}` of the source component is not passed to {target}(...): the attribute is lost by the transformation"
+                       (f"`{a}` of the source component `{src}` is not passed to {target}(...): the attribute is lost by the transformation"
                         if v is None else f"{a}={txt(v)}"), f.loc(c))
         if n_site == 0:
             raise AnalysisError(f"{f.qual}: no {target}(...) conversion found")
